@@ -1,3 +1,234 @@
+(* P_C01.v — property C01: steps run only on Ok dependencies and see exactly
+   their values.  Statements only; proofs are in proofs/Workflow_proofs.v.
+   Model: model/Workflow.v (src/koreo/workflow/reconcile.py).
+
+   Reading guide.  [run_workflow fn_sem name ready steps trigger] is one
+   reconcile pass; it returns the Result fields, the per-step outcomes
+   [w_outcomes] and the trace [w_trace] of every evaluation of Logic:
+   an [inv] has the path of (step label, forEach index) it was made under, the
+   Function / sub-workflow evaluated, the inputs it received and the API calls
+   it made ([calls_of] attributes those calls to paths).
+   * [fn_sem] — what each Function returns / calls on given inputs — is
+     universally quantified: "every assignment of outcome classes".
+   * [well_formed steps]: labels pairwise distinct and every dependency names
+     an earlier step — what prepare_workflow guarantees (anything else becomes
+     an ErrorStep and the workflow is not ready, see C01_not_ready).
+   * [step_env_o s trigger outs] is the environment {steps ↦ exactly the
+     dependencies' Ok values ([out_vals]), parent ↦ trigger}.
+   * [gate_open_o s trigger outs base]: s is not an ErrorStep, every dependency
+     of s is Ok in [outs], the inputs expression of s evaluates to [base] in
+     that environment, and skipIf is absent or evaluates to false. *)
 From Koreo Require Import Json Outcome Workflow Workflow_proofs.
-Theorem C01_placeholder : True. Proof. exact placeholder_true. Qed.
-Print Assumptions C01_placeholder.
+Local Open Scope list_scope.
+
+Section C01.
+  Variable fn_sem : fid -> json -> fres.
+  Notation run name steps trigger := (run_workflow fn_sem name None steps trigger).
+
+  (* "A Workflow step's Logic is evaluated only after every step it references
+     has finished with an Ok outcome" (and only if skipIf did not say true) *)
+  Theorem C01_gate : forall name steps trigger, well_formed steps ->
+    forall i l idx rest,
+      In i (w_trace (run name steps trigger)) -> i_path i = (l, idx) :: rest ->
+      exists s, In s steps /\ s_label s = l /\ is_error_step s = false /\
+        (forall d, In d (s_deps s) ->
+                   exists v, lookup d (w_outcomes (run name steps trigger)) = Some (SVal v)) /\
+        (eval_skip (s_skip s) (step_env_o s trigger (w_outcomes (run name steps trigger))) = SkNone \/
+         eval_skip (s_skip s) (step_env_o s trigger (w_outcomes (run name steps trigger))) = SkBool false).
+  Proof. exact (gate_expanded fn_sem). Qed.
+
+  (* "and it receives exactly those steps' return values mapped through its
+     inputs" (with the forEach item under inputKey) *)
+  Theorem C01_inputs_exact : forall name steps trigger, well_formed steps ->
+    forall i l idx,
+      In i (w_trace (run name steps trigger)) -> i_path i = [(l, idx)] ->
+      exists s base,
+        In s steps /\ s_label s = l /\
+        gate_open_o s trigger (w_outcomes (run name steps trigger)) base /\
+        match s_foreach s, idx with
+        | None, None => i_inputs i = base
+        | Some (it, key), Some k =>
+            exists items item,
+              eval it (step_env_o s trigger (w_outcomes (run name steps trigger))) = Some (JList items) /\
+              nth_error items k = Some item /\ i_inputs i = set_input key item base
+        | _, _ => False
+        end.
+  Proof. exact (inputs_exact_thm fn_sem). Qed.
+
+  (* "If any referenced step was skipped, is waiting or failed, the step is
+     reported as a dependency-skip and its Logic is never evaluated (no API
+     call is made on its behalf)" *)
+  Theorem C01_depskip : forall name steps trigger, well_formed steps ->
+    forall s, In s steps -> is_error_step s = false ->
+      (exists d, In d (s_deps s) /\ ~ out_ok (w_outcomes (run name steps trigger)) d) ->
+      lookup (s_label s) (w_outcomes (run name steps trigger)) = Some (SNon NDepSkip) /\
+      filter (head_is (s_label s)) (w_trace (run name steps trigger)) = [] /\
+      (forall pc, In pc (calls_of (w_trace (run name steps trigger))) ->
+                  path_head (fst pc) <> Some (s_label s)).
+  Proof. exact (depskip_thm fn_sem). Qed.
+
+  (* "a step whose skipIf is true is skipped the same way" *)
+  Theorem C01_skip : forall name steps trigger, well_formed steps ->
+    forall s base, In s steps -> is_error_step s = false ->
+      Forall (out_ok (w_outcomes (run name steps trigger))) (s_deps s) ->
+      eval_inputs (s_inputs s) (step_env_o s trigger (w_outcomes (run name steps trigger))) = Some base ->
+      eval_skip (s_skip s) (step_env_o s trigger (w_outcomes (run name steps trigger))) = SkBool true ->
+      lookup (s_label s) (w_outcomes (run name steps trigger)) = Some (SNon NSkip) /\
+      filter (head_is (s_label s)) (w_trace (run name steps trigger)) = [] /\
+      (forall pc, In pc (calls_of (w_trace (run name steps trigger))) ->
+                  path_head (fst pc) <> Some (s_label s)).
+  Proof. exact (skip_thm fn_sem). Qed.
+
+  (* "and a refSwitch evaluates exactly the one selected case": what is recorded
+     under the step is the evaluation of [select_case]'s choice and nothing
+     else; with no case selected nothing is evaluated (PermFail) *)
+  Theorem C01_switch_exactly_one : forall name steps trigger, well_formed steps ->
+    forall s base on cases d,
+      In s steps -> gate_open_o s trigger (w_outcomes (run name steps trigger)) base ->
+      s_foreach s = None -> s_logic s = LSwitch on cases d ->
+      match select_case on cases d base (step_env_o s trigger (w_outcomes (run name steps trigger))) with
+      | None =>
+          lookup (s_label s) (w_outcomes (run name steps trigger)) = Some (SNon NPermFail) /\
+          filter (head_is (s_label s)) (w_trace (run name steps trigger)) = []
+      | Some lg =>
+          let r := run_logic fn_sem lg base (step_env_o s trigger (w_outcomes (run name steps trigger))) in
+          lookup (s_label s) (w_outcomes (run name steps trigger)) = Some (r_out r) /\
+          filter (head_is (s_label s)) (w_trace (run name steps trigger)) =
+            map (push (s_label s, None)) (r_trace r)
+      end.
+  Proof. exact (switch_thm fn_sem). Qed.
+
+  (* ... and whatever the Logic (nested switches included) at most one
+     evaluation is recorded directly for one (step, item) *)
+  Theorem C01_at_most_one_direct : forall lg inputs en,
+    (List.length (filter (fun i => match i_path i with [] => true | _ => false end)
+                         (r_trace (run_logic fn_sem lg inputs en))) <= 1)%nat.
+  Proof. exact (direct_at_most_one fn_sem). Qed.
+
+  (* a plain `ref` to a Function: exactly one evaluation, of that Function, on
+     exactly the mapped inputs, and the step reports what it returned *)
+  Theorem C01_function_step : forall name steps trigger, well_formed steps ->
+    forall s base f,
+      In s steps -> gate_open_o s trigger (w_outcomes (run name steps trigger)) base ->
+      s_foreach s = None -> s_logic s = LFn f ->
+      lookup (s_label s) (w_outcomes (run name steps trigger)) = Some (f_out (fn_sem f base)) /\
+      filter (head_is (s_label s)) (w_trace (run name steps trigger)) =
+        [ {| i_path := [(s_label s, None)]; i_tgt := TgFn f; i_inputs := base;
+             i_calls := f_calls (fn_sem f base) |} ].
+  Proof. exact (fn_thm fn_sem). Qed.
+
+  (* forEach: one evaluation per item, in source order, item k receiving
+     exactly item k under inputKey *)
+  Theorem C01_foreach_one_per_item : forall name steps trigger, well_formed steps ->
+    forall s base it key items,
+      In s steps -> gate_open_o s trigger (w_outcomes (run name steps trigger)) base ->
+      s_foreach s = Some (it, key) ->
+      eval it (step_env_o s trigger (w_outcomes (run name steps trigger))) = Some (JList items) ->
+      filter (head_is (s_label s)) (w_trace (run name steps trigger)) =
+        List.concat
+          (mapi (fun k item =>
+                   map (push (s_label s, Some k))
+                       (r_trace (run_logic fn_sem (s_logic s) (set_input key item base)
+                                           (step_env_o s trigger (w_outcomes (run name steps trigger))))))
+                items).
+  Proof. exact (foreach_thm fn_sem). Qed.
+
+  Theorem C01_foreach_function : forall name steps trigger, well_formed steps ->
+    forall s base it key items f,
+      In s steps -> gate_open_o s trigger (w_outcomes (run name steps trigger)) base ->
+      s_foreach s = Some (it, key) ->
+      eval it (step_env_o s trigger (w_outcomes (run name steps trigger))) = Some (JList items) ->
+      s_logic s = LFn f ->
+      filter (head_is (s_label s)) (w_trace (run name steps trigger)) =
+        mapi (fun k item => {| i_path := [(s_label s, Some k)]; i_tgt := TgFn f;
+                               i_inputs := set_input key item base;
+                               i_calls := f_calls (fn_sem f (set_input key item base)) |}) items.
+  Proof. exact (foreach_fn_thm fn_sem). Qed.
+
+  (* sub-workflow: it is run with the mapped inputs as its trigger; Ok => the
+     step's value is the sub-workflow's STATE, otherwise its outcome *)
+  Theorem C01_sub_workflow_value : forall name steps trigger, well_formed steps ->
+    forall s base n r sub,
+      In s steps -> gate_open_o s trigger (w_outcomes (run name steps trigger)) base ->
+      s_foreach s = None -> s_logic s = LSub n r sub ->
+      let w := run_workflow fn_sem n r sub base in
+      lookup (s_label s) (w_outcomes (run name steps trigger)) =
+        Some (match w_result w with
+              | UList _ => SVal (JMap (w_state w))
+              | UNon o => of_outcome o
+              end) /\
+      filter (head_is (s_label s)) (w_trace (run name steps trigger)) =
+        map (push (s_label s, None))
+            ({| i_path := []; i_tgt := TgSub n; i_inputs := base; i_calls := [] |} :: w_trace w).
+  Proof. exact (sub_thm fn_sem). Qed.
+
+  (* the statements above hold at every depth: what is recorded deeper under a
+     step is the trace of the sub-workflow's own [run_workflow] on the inputs
+     of the evaluation recorded at (label, index) *)
+  Theorem C01_nested : forall name steps trigger, well_formed steps ->
+    forall i l idx seg rest,
+      In i (w_trace (run name steps trigger)) -> i_path i = (l, idx) :: seg :: rest ->
+      exists n r sub inputs,
+        In {| i_path := [(l, idx)]; i_tgt := TgSub n; i_inputs := inputs; i_calls := [] |}
+           (w_trace (run name steps trigger)) /\
+        In {| i_path := seg :: rest; i_tgt := i_tgt i; i_inputs := i_inputs i; i_calls := i_calls i |}
+           (w_trace (run_workflow fn_sem n r sub inputs)).
+  Proof. exact (nested_thm fn_sem). Qed.
+
+  (* `steps_ready` not Ok (an ErrorStep: duplicate label, out-of-order
+     reference, Logic that did not load): nothing runs *)
+  Theorem C01_not_ready : forall name o steps trigger,
+    let w := run_workflow fn_sem name (Some o) steps trigger in
+    w_trace w = [] /\ w_outcomes w = [] /\ w_result w = UNon (nonok_outcome o) /\
+    w_state w = [] /\ w_conds w = [("Ready", reason_of_nonok o)].
+  Proof. exact (not_ready_thm fn_sem). Qed.
+End C01.
+
+(* non-vacuity: a well-formed workflow in which a step runs on its dependency's
+   value, one is dependency-skipped, one is skipped by skipIf, a refSwitch
+   selects a case and a forEach evaluates once per item *)
+Definition ex_fn (f : fid) (i : json) : fres :=
+  if String.eqb f "skipper"
+  then {| f_out := SNon NSkip; f_rid := None; f_calls := [] |}
+  else {| f_out := SVal (JMap [("got", i)]); f_rid := None; f_calls := [("GET", f)] |}.
+
+Definition ex_steps : list step :=
+  [ mkStep "aaa" [] (Some [("x", EParent ["y"]); ("t", EConst (JBool true))]) None None (LFn "echo") None None;
+    mkStep "bbb" [] None None None (LFn "skipper") None None;
+    mkStep "ccc" ["aaa"] (Some [("v", EStep "aaa" ["got"; "x"])]) None None (LFn "echo") None None;
+    mkStep "ddd" ["aaa"; "bbb"] None None None (LFn "echo") None None;
+    mkStep "eee" ["aaa"] None (Some (EStep "aaa" ["got"; "t"])) None (LFn "echo") None None;
+    mkStep "fff" ["ccc"] (Some [("k", EConst (JStr "one"))]) None None
+           (LSwitch (EInputs ["k"]) [("one", LFn "echo"); ("two", LFn "other")] None) None None;
+    mkStep "ggg" ["aaa"] None None (Some (EConst (JList [JInt 1; JInt 2]), "item")) (LFn "echo") None None ].
+
+Example C01_nonvacuous :
+  well_formed ex_steps /\
+  let w := run_workflow ex_fn "wf" None ex_steps (JMap [("y", JInt 5)]) in
+  map (fun i => (i_path i, i_tgt i, i_inputs i)) (w_trace w) =
+    [ ([("aaa", None)], TgFn "echo", JMap [("x", JInt 5); ("t", JBool true)]);
+      ([("bbb", None)], TgFn "skipper", JMap []);
+      ([("ccc", None)], TgFn "echo", JMap [("v", JInt 5)]);
+      ([("fff", None)], TgFn "echo", JMap [("k", JStr "one")]);
+      ([("ggg", Some 0%nat)], TgFn "echo", JMap [("item", JInt 1)]);
+      ([("ggg", Some 1%nat)], TgFn "echo", JMap [("item", JInt 2)]) ] /\
+  lookup "ddd" (w_outcomes w) = Some (SNon NDepSkip) /\
+  lookup "eee" (w_outcomes w) = Some (SNon NSkip).
+Proof.
+  split.
+  - split; [reflexivity|]. repeat constructor; cbn; intuition discriminate.
+  - vm_compute. auto.
+Qed.
+
+Print Assumptions C01_gate.
+Print Assumptions C01_inputs_exact.
+Print Assumptions C01_depskip.
+Print Assumptions C01_skip.
+Print Assumptions C01_switch_exactly_one.
+Print Assumptions C01_at_most_one_direct.
+Print Assumptions C01_function_step.
+Print Assumptions C01_foreach_one_per_item.
+Print Assumptions C01_foreach_function.
+Print Assumptions C01_sub_workflow_value.
+Print Assumptions C01_nested.
+Print Assumptions C01_not_ready.
